@@ -87,7 +87,7 @@ CHECKS = {
             "Exit status, start ID, lock file before/after and style/scope agree with the guide for every combination; invalid set-ups exit non-zero and change nothing.",
             "Reference model of the guide (~40 lines).", "§3 C16"),
     "C17": ("E3-vh + E4", "exploration",
-            "exhaustive enumeration of all token sequences up to length 4 (thorough 5) over a 29-token alphabet, complete 1-/2-edit neighbourhoods of skeleton statements, UTF-8 alignment sweep at power-of-two boundaries, invalid-UTF-8 and size families, recursion probes, and a scaling oracle (13 ordinary shapes at 16/64/256 KiB (thorough 1 MiB) under callgrind: 4x the size executes fewer than 9x the instructions)",
+            "exhaustive enumeration of all token sequences up to length 4 (thorough 5) over a 29-token alphabet, complete 1-/2-edit neighbourhoods of skeleton statements at token and at character level, UTF-8 alignment sweep at power-of-two boundaries, invalid-UTF-8 and size families, recursion probes, and a scaling oracle (13 ordinary shapes at 16/64/256 KiB (thorough 1 MiB) under callgrind: 4x the size executes fewer than 9x the instructions)",
             "No unwind escapes the parser in-process; through the CLI no exit 101/abort/signal and bounded wall time; unreadable files are reported and skipped while the others are processed.",
             "Byte strings beyond the bound are not covered.", "§3 C17"),
     "C18": ("E1-fsx", "model_checking",
